@@ -26,6 +26,8 @@ inductive HtmlOnlyE : Expr → Prop
   | mul {a : Expr} (n : Nat) : HtmlOnlyE a → HtmlOnlyE (.mul a n)
   | filt {name : String} {ps : List Nat} {args : List Expr} :
       FilterOk name ps → HtmlOnlyEs args → HtmlOnlyE (.filt name ps args)
+  | meth {name : String} {ps : List Nat} {args : List Expr} :
+      (∀ k, FilterOk (k ++ "." ++ name) ps) → HtmlOnlyEs args → HtmlOnlyE (.meth name ps args)
   | index {a : Expr} (k : Nat) : HtmlOnlyE a → HtmlOnlyE (.index a k)
   | slice {a : Expr} (x y : Nat) : HtmlOnlyE a → HtmlOnlyE (.slice a x y)
   | attr {a : Expr} (key : String) : HtmlOnlyE a → HtmlOnlyE (.attr a key)
@@ -268,6 +270,15 @@ theorem exec_pres_frag : ∀ fuel : Nat,
     refine ⟨?_, ?_, ?_, ?_, ?_, ?_⟩
     · intro env e hEnv hE
       cases hE with
+      | meth hf hargs =>
+        simp only [evalExpr]
+        refine Pres.bind (ihA _ _ hEnv hargs) fun rs => ?_
+        split
+        · exact Pres.fail
+        · refine Pres.bind (Pres.readM _) fun v => ?_
+          split
+          · exact Pres.fail
+          · exact Pres.applyNamed_html hEnv.mode (hf _) _
       | call m hargs =>
         simp only [evalExpr]
         split
